@@ -113,12 +113,18 @@ func verifHarness_C07_served() {
 		{{"/u/{id}", []string{"GET"}}, {"/{oid}/{item}", []string{"GET"}}},
 	}[cfg%2]
 	capacity := 2 + (cfg/2)%2
+	// with StrictLastSlash (on both routers) a trailing slash is part of the path, and the
+	// requests may end in one
+	strict := (cfg/4)%2 == 1
 	type seen struct {
 		route  int
 		params Params
 	}
 	mk := func(opts ...func(*Router)) (*Router, *[]seen) {
 		var log []seen
+		if strict {
+			opts = append(opts, StrictLastSlash)
+		}
 		r := New(opts...)
 		for i, d := range defs {
 			i := i
@@ -135,15 +141,31 @@ func verifHarness_C07_served() {
 	rOff, logOff := mk()
 	rOn, logOn := mk(CachingWithNum(uint16(capacity)))
 	K := verifParam("K")
+	// the whole history first on the router without a cache, then on the caching one (state that
+	// lives outside the routers - a package-level pool, say - must not be shared round by round)
+	paths := make([]string, K)
+	var offSeen [][]seen
 	for k := 0; k < K; k++ {
 		n := verifLen("n", 2, verifParam("L"))
-		p := verifNormalPathN("p", n)
-		*logOff, *logOn = nil, nil
-		rOff.ServeHTTP(verifNewWriter(), verifRequest("GET", p))
-		rOn.ServeHTTP(verifNewWriter(), verifRequest("GET", p))
-		same := len(*logOff) == len(*logOn)
-		if same && len(*logOff) == 1 {
-			a, b := (*logOff)[0], (*logOn)[0]
+		if strict {
+			q := verifString("p", n)
+			verifAssume(verifAnd(q[0] == '/', q[1] != '/'))
+			last := q[n-1]
+			verifAssume(verifOr(verifAnd(last > 0x20, last < 0x80), last >= 0xB0))
+			paths[k] = q
+		} else {
+			paths[k] = verifNormalPathN("p", n)
+		}
+		*logOff = nil
+		rOff.ServeHTTP(verifNewWriter(), verifRequest("GET", paths[k]))
+		offSeen = append(offSeen, append([]seen(nil), *logOff...))
+	}
+	for k := 0; k < K; k++ {
+		*logOn = nil
+		rOn.ServeHTTP(verifNewWriter(), verifRequest("GET", paths[k]))
+		same := len(offSeen[k]) == len(*logOn)
+		if same && len(*logOn) == 1 {
+			a, b := offSeen[k][0], (*logOn)[0]
 			same = a.route == b.route && len(a.params) == len(b.params)
 			if same {
 				for key, v := range a.params {
